@@ -145,6 +145,9 @@ FTok(lazy) == { <<Rule(<<Dl(".", FALSE), I("a", FALSE)>>, <<Decl(p[1], p[2])>>)>
                <<At("layer", <<I("a", TRUE), Com(FALSE), I("b", TRUE)>>, "stmt", <<>>), Rule(<<I("p", FALSE)>>, Red)>>,
                <<At("page", <<Col(TRUE), I("first", FALSE)>>, "decls", <<Decl("margin", <<Dim(3, "rpx", FALSE)>>)>>)>>,
                <<At("unknown", <<I("x", TRUE), Dim(3, "rpx", TRUE)>>, "stmt", <<>>)>>,
+               (* class names that already look prefixed (for every prefix of PrefixOpts): they are class names like any other *)
+               <<Rule(<<Dl(".", FALSE), I("p--a", FALSE), Dl(".", TRUE), I("--b", FALSE), Dl(".", FALSE), I("~E~x--c", FALSE), Col(FALSE),
+                        Fn("not", <<Dl(".", FALSE), I("p--p--d", FALSE), Com(FALSE), Dl(".", TRUE), I("p-e", FALSE), Dl(".", TRUE), I("p", FALSE)>>, FALSE)>>, Red)>>,
                (* empty constructs *)
                <<Rule(<<Dl(".", FALSE), I("a", FALSE)>>, <<>>), Rule(<<Dl(".", FALSE), I("b", FALSE)>>, Red)>>,
                <<At("media", <<I("screen", TRUE)>>, "rules", <<>>), Rule(<<Dl(".", FALSE), I("b", FALSE)>>, Red)>>,
